@@ -167,6 +167,9 @@ func genGeom(r *simrt.RNG, typ string, allowEmpty bool, base float64) *gpkgh.G {
 		}
 	case gpkgh.TPoint:
 		g.P = pts(1)
+		if empty {
+			g.P = [][2]float64{} // POINT EMPTY
+		}
 	case gpkgh.TLineString:
 		if empty {
 			g.P = [][2]float64{}
@@ -350,10 +353,10 @@ func genWork(seed uint64) (gwork, simrt.FaultPlan, simrt.MapPolicy, uint64) {
 		if nullGeoms && r.Chance(0.2) {
 			row.Geom = nil // a feature without geometry
 		}
-		if allEmptyPage && t.GeomType != gpkgh.TPoint && i < p && row.Geom != nil {
+		if allEmptyPage && i < p && row.Geom != nil {
 			row.Geom = genGeom(simrt.NewRNG(1, "e"), t.GeomType, false, 0)
 			switch t.GeomType {
-			case gpkgh.TLineString, gpkgh.TMultiPoint:
+			case gpkgh.TPoint, gpkgh.TLineString, gpkgh.TMultiPoint:
 				row.Geom.P = [][2]float64{}
 			case gpkgh.TPolygon, gpkgh.TMultiLineString:
 				row.Geom.L = [][][2]float64{}
